@@ -4,3 +4,6 @@ pub assume_specification<T, P: FnOnce(&T) -> bool> [Option::<T>::filter] (o: Opt
     ensures
         o is None ==> r is None,
         o matches Some(x) ==> (r is None || r == Some(x)) && (forall|b: bool| call_ensures(p, (&x,), b) ==> (b <==> r is Some));
+// mem::replace: moves `src` in and the old value out
+pub assume_specification<T> [core::mem::replace::<T>] (dest: &mut T, src: T) -> (r: T)
+    ensures r == *old(dest), *final(dest) == src;
